@@ -422,6 +422,13 @@ def extract_unit(u: Unit, rewrite_log: list) -> List[Piece]:
                     if k < 0:
                         raise LostAnchor("%s: anchor not found (occurrence %s): %r" % (u.name, nth.group(1), pat))
                     pos = k + 1
+            elif pat.startswith("~"):
+                # "@closure:~<regex>": the closure header given as a regular expression (whitespace-insensitive anchors)
+                ms = list(re.finditer(pat[1:], m[lo:hi]))
+                if len(ms) != 1:
+                    raise LostAnchor("%s: closure anchor regex matches %d times: %r" % (u.name, len(ms), pat[1:]))
+                k = lo + ms[0].start()
+                pat = ms[0].group(0)
             else:
                 k = find_unique(m, pat, u.name, lo, hi)
             # the call whose argument the closure is: the innermost parenthesis still open at the closure's first `|`
